@@ -265,4 +265,6 @@ def check(model: Model, tier: str):
     # progress output and the undocumented truncation option 'fro' are outside the property's quantifier: their guards are fixed
     obs += rules.rule_defassign(model, fs, exc, domain="quantifier")
     obs += rules.rule_unres(model, fs)
+    from ..normguard import rule_qr_rank
+    obs += rule_qr_rank(model, 'solvers._amen_solve_python')
     return obs, {"functions": ANCHORS}
